@@ -107,6 +107,7 @@ def handle (ts : List String) : String :=
     let owedAfter := (F ++ T).drop yielded
     let g : SpecRx.G := { notArrived := (enc (F ++ T)).length - arrivedIn1, owed := owedAfter, closed := closedIn1 }
     let h := (implW == expW) && SpecChain.conforms souts F &&
+      SpecChain.complete evs1 souts (enc (F ++ T)).length F.length &&
       SpecRx.conforms evs2 (DriverRx.outsOfToks tbl oafter owedAfter) g &&
       SpecChain.Conforming kind count F
     "M " ++ m ++ " | H " ++ (if h then "1" else "0")
